@@ -4,7 +4,9 @@ import SafeNet.Model.Store
 Line protocol of the record-store model (`drv_store`), one output line per op line:
 
 ```
-init <max> <cache> <peer>      fresh store (shipped constants / feature flag)         -> ok
+init <max> <cache> <peer> [<maxval>]  fresh store (shipped constants / feature flag; max_value_bytes) -> ok
+kadput <k> <v>                 RecordStore::put (unverified path): only its size test       -> ok | too-large
+len <v>                        length in bytes of value #v                                  -> <n>
 key <k> <dist>                 distance of key k to the node (data from the harness)  -> ok
 put <k> <v> <rt>               rt = c | s | n<v>                                     -> ok | dedup | max
 remove <k> | setrange <r> | cleanup | payment                                         -> ok
@@ -92,6 +94,20 @@ def step (d : DSt) (ws : List String) : DSt × String :=
       let cfg := Cfg.shipped m c
       ({ dists := [], cfg := cfg, st := SafeNet.Store.init cfg (fun _ => 0) }, "ok")
     | _, _ => (d, "bad-op")
+  | ["init", m, c, _peer, mv] =>
+    match m.toNat?, c.toNat?, mv.toNat? with
+    | some m, some c, some mv =>
+      let cfg := Cfg.shippedV m c mv
+      ({ dists := [], cfg := cfg, st := SafeNet.Store.init cfg (fun _ => 0) }, "ok")
+    | _, _, _ => (d, "bad-op")
+  | ["kadput", k, v] =>
+    match k.toNat?, v.toNat? with
+    | some _, some v => (d, if kadPutTooLarge d.cfg v then "too-large" else "ok")
+    | _, _ => (d, "bad-op")
+  | ["len", v] =>
+    match v.toNat? with
+    | some v => (d, s!"{valLen v}")
+    | none => (d, "bad-op")
   | ["key", k, ds] =>
     match k.toNat?, ds.toNat? with
     | some k, some x => ({ d with dists := insert k x d.dists }, "ok")
@@ -152,6 +168,10 @@ def searchCandidates : List String :=
       && Gen.Store.withinRangeExclusive && Gen.Store.cleanupFromInclusive then [] else
     ["init 2 2 1", "key 1 @1", "key 2 @2", "key 3 @3", "put 1 3 c", "run 1", "deliver 1", "put 2 6 c", "run 2",
      "deliver 2", "far", "put 3 9 c", "addrs", "dist", "setrange @2", "metrics 1"]
-  c1 ++ c2
+  -- 3. a size test in the start-up scan: completely written records around the limit must survive a restart
+  let c3 := if !Gen.Store.scanDropsOversized then [] else
+    ["init 4 2 1 100", "key 1 @", "key 2 @", "key 3 @", "put 1 1299 c", "put 2 1254 c", "put 3 1251 c",
+     "run 1", "run 2", "run 3", "deliver 1", "deliver 2", "deliver 3", "crash", "get 1", "get 2", "get 3", "addrs"]
+  c1 ++ c2 ++ c3
 
 end SafeNet.Driver.Store
